@@ -87,7 +87,7 @@ CUR = {}
 
 class TapIO(IO):
     def raw_recv(self):
-        tap = CUR.get('tap')
+        tap = getattr(self, '_vp_tap', None) or CUR.get('tap')
         if tap is None:
             return super(TapIO, self).raw_recv()
         enc = self.encrypted
@@ -106,7 +106,7 @@ class TapIO(IO):
 
     def encrypt_socket_server(self, context):
         # the server now waits for the ClientHello: also a point where it has done all it can
-        tap = CUR.get('tap')
+        tap = getattr(self, '_vp_tap', None) or CUR.get('tap')
         if tap is not None:
             tap.hs_started = True
             tap.in_handshake = True
@@ -1057,6 +1057,180 @@ def oracle_client(ctx, case, r):
                  'client.extensions after the post-handshake EHLO holds XINJECTED, announced only in clear text: %r' % (r['exts'],))
 
 
+# ---------------------------------------------------------------- real Client.auth against the real Server
+def sized(n, uni):
+    """a text of exactly n UTF-8 bytes; multi-byte characters so that byte offsets 57, 76 ... fall inside one"""
+    if not uni:
+        return ('abcdefghij' * (n // 10 + 1))[:n]
+    out, size, k = [], 0, 0
+    alphabet = ['\u4e2d', '\u00e9', '\u0416']      # stable under saslprep (CRAM-MD5 prepares its strings)
+    while True:
+        c = alphabet[k % 3]
+        b = len(c.encode('utf-8'))
+        if size + b > n:
+            break
+        out.append(c)
+        size += b
+        k += 1
+    return ''.join(out) + 'x' * (n - size)
+
+
+def pair_params(case):
+    long_text = sized(case['n'], case['uni'])
+    cid = long_text if case['field'] == 'cid' else 'user'
+    sec = long_text if case['field'] == 'secret' else 'pw'
+    zid = 'zid-\u00e9' if case['zid'] else None
+    return cid, sec, zid
+
+
+def run_pair_case(case):
+    """real Client (get_banner / ehlo / starttls | encrypt / auth / NOOP) against the real Server + SmtpSession
+    over a socketpair with real TLS.  case: mech, n (bytes), uni, field, zid, imm"""
+    from pysasl.prep import saslprep
+    import hmac, hashlib
+    sctx, cctx = contexts()
+    a, b = gsocket.socketpair()
+    stap, ctap = Tap(), Tap()
+    CUR['tap'] = None
+    scase = dict(context=1, imm=case['imm'], auth=2, verdicts=[])
+    rec = Rec(scase)
+    session = TraceSession(rec, ADDR, make_validators(rec), handoff_for(rec))
+    server = Server(a, session, ADDR, auth=list(MECHS), context=sctx, tls_immediately=bool(case['imm']))
+    server.io._vp_tap = stap
+    rec.server = server
+    rec.crash = None
+
+    def serve():
+        try:
+            server.handle()
+            rec.end = 1
+        except ConnectionLost:
+            rec.end = 3
+        except BaseException as e:
+            rec.end = 2
+            rec.crash = type(e).__name__
+        finally:
+            try:
+                server.io.close()
+            except BaseException:
+                pass
+
+    g = gevent.spawn(serve)
+    client = Client(b, ('localhost', 25))
+    client.io._vp_tap = ctap
+    cid, sec, zid = pair_params(case)
+    calls = []
+    err = None
+    try:
+        with gevent.Timeout(10.0):
+            if case['imm']:
+                client.encrypt(cctx)
+            calls.append(('banner', client.get_banner().code))
+            calls.append(('ehlo', client.ehlo('c.example').code))
+            if not case['imm']:
+                calls.append(('starttls', client.starttls(cctx).code))
+                calls.append(('ehlo', client.ehlo('c.example').code))
+            rep = client.auth(cid, sec, zid, mechanism=case['mech'])
+            calls.append(('auth', rep.code))
+            calls.append(('noop', client.custom_command(b'NOOP').code))
+    except BaseException as e:
+        err = type(e).__name__
+    finally:
+        try:
+            client.io.socket.close()
+        except BaseException:
+            pass
+        g.join(5.0)
+        if not g.dead:
+            g.kill()
+    env = session.envelope
+    ext = server.extensions
+    state = (int(bool(server.bannered)), server.ehlo_as.encode('utf-8') if server.ehlo_as else None,
+             int(bool(server.have_mailfrom)), int(bool(server.have_rcptto)), int(bool(server.authed)),
+             int(bool(server.io.encrypted)), int('STARTTLS' in ext), int('AUTH' in ext),
+             (env.sender.encode('utf-8'), tuple(x.encode('utf-8') for x in env.recipients)) if env is not None else None,
+             session.ehlo_as.encode('utf-8') if session.ehlo_as else None,
+             session.auth[0].encode('utf-8') if session.auth else None,
+             int(session.security == 'TLS'))
+    # what the client put on the wire = what the server's socket delivered
+    wire = b''.join(d for e, d in stap.chunks)
+    got = [(e, d) for e, d in ctap.chunks]
+    steps = []
+    for chan in (0, 1):
+        data = b''.join(d for e, d in got if int(e) == chan)
+        if data:
+            steps.append((chan, data, parse_replies(data)))
+    # what the client was given, as the server's handler must see it, and the SASL responses
+    cidb, secb = cid.encode('utf-8'), sec.encode('utf-8')
+    if case['mech'] == b'PLAIN':
+        zidb = (zid or '').encode('utf-8')
+        want = (0, cidb, secb, zidb or cidb)
+        responses = [zidb + b'\0' + cidb + b'\0' + secb]
+        first_with = True
+    elif case['mech'] == b'LOGIN':
+        want = (0, cidb, secb, cidb)
+        responses = [cidb, secb]
+        first_with = False
+    else:
+        pc, ps = saslprep(cid).encode('utf-8'), saslprep(sec).encode('utf-8')
+        dig = hmac.new(ps, MSGID.encode(), hashlib.md5).hexdigest().encode('ascii')
+        want = (1, pc, dig, MSGID.encode())
+        responses = [pc + b' ' + dig]
+        first_with = False
+    return dict(steps=steps, events=rec.events, end=rec.end, crash=rec.crash, state=state, nev=[],
+                plain=[d for e, d in stap.chunks if not e], tls=[d for e, d in stap.chunks if e],
+                hs=1, stale=rec.stale, tls_bytes=b'', calls=calls, err=err, wire=wire, want=want,
+                responses=responses, first_with=first_with, scase=scase)
+
+
+def oracle_pair(ctx, case, r, encoded):
+    """credentials shown to the application = credentials the client was given; each SASL response is one
+    line on the client's wire, the one the model's encoder gives"""
+    got = [ev[2] for ev in r['events'] if ev[0] == 1]
+    if got != [r['want']]:
+        fail(ctx, 'c08:credentials-differ', case,
+             'Client.auth was given %s credentials of %d bytes (%s); the server\'s AUTH handler was shown %r, expected %r (client calls %r, error %r)'
+             % (case['mech'].decode(), case['n'], case['field'], [(g[0], g[1][:40], g[2][:40], g[3][:40]) for g in got],
+                (r['want'][0], r['want'][1][:40], r['want'][2][:40], r['want'][3][:40]), r['calls'], r['err']))
+    lines = r['wire'].split(b'\r\n')
+    try:
+        k = [i for i, l in enumerate(lines) if l.upper().startswith(b'AUTH ')][0]
+    except IndexError:
+        fail(ctx, 'c08:client-auth-response-not-one-line', case, 'no AUTH command on the client\'s wire: %r' % (r['wire'][:200],))
+        return
+    exp = []
+    enc = [B(e) for e in encoded]
+    if r['first_with']:
+        exp.append(b'AUTH ' + case['mech'] + b' ' + enc[0])
+        exp += enc[1:]
+    else:
+        exp.append(b'AUTH ' + case['mech'])
+        exp += enc
+    exp.append(b'NOOP')
+    seen = lines[k:k + len(exp)]
+    if seen != exp:
+        fail(ctx, 'c08:client-auth-response-not-one-line', case,
+             'the client\'s wire for the AUTH exchange is %d lines %r; one line per SASL response, base64 without line breaks, is %r'
+             % (len([l for l in lines[k:] if l]), [l[:90] for l in lines[k:k + len(exp) + 2]], [l[:90] for l in exp]))
+
+
+PAIR_LENGTHS = [1, 10, 40, 56, 57, 58, 100, 300, 1000]
+
+
+def pair_cases():
+    cs = []
+    for imm in (1, 0):
+        for mech in (b'PLAIN', b'LOGIN', b'CRAM-MD5'):
+            for n in PAIR_LENGTHS:
+                for uni in (0, 1):
+                    for field in ('cid', 'secret'):
+                        for zid in ((0, 1) if mech == b'PLAIN' else (0,)):
+                            cs.append(dict(kind='pair', imm=imm, mech=mech, n=n, uni=uni, field=field, zid=zid,
+                                           name='pair/%s/%s/%d/%s/%s/zid%d' % ('imm' if imm else 'starttls', mech.decode(), n,
+                                                                                'unicode' if uni else 'ascii', field, zid)))
+    return cs
+
+
 # ---------------------------------------------------------------- case generation
 def b64(x):
     return base64.b64encode(x)
@@ -1728,6 +1902,18 @@ def run(ctx):
                 ctx.sample(dict(case=case['name'], script=[list(a) for a in case['script']],
                                 replies=[(ch, p) for ch, d, p in r['steps']], events=r['events']))
         metamorphic(ctx, results)
+        pcases = pair_cases()
+        pres = [(c, run_pair_case(c)) for c in pcases]
+        pouts = ctx.model.batch('c08_session', [model_input(r['scase'], r) for c, r in pres])
+        encs = ctx.model.batch('c08_b64enc', [x for c, r in pres for x in r['responses']])
+        ei = 0
+        for (case, r), mo in zip(pres, pouts):
+            k = len(r['responses'])
+            compare_server(ctx, dict(case, context=1, auth=2, verdicts=[]), r, mo)
+            oracle_pair(ctx, case, r, encs[ei:ei + k])
+            ei += k
+            ctx.evaluated(case['name'], nontrivial=True)
+            ctx.count('pair:' + case['mech'].decode())
         ccases = client_cases()
         cres = [(c, run_client_case(c)) for c in ccases]
         couts = ctx.model.batch('c08_client', [[1, r['plain'], r['tls'], [0, 0, 1] + [0] * len(c['after'])] for c, r in cres])
@@ -1747,7 +1933,9 @@ def run(ctx):
         'transaction, the rest of the half line, STARTTLS again, AUTH, HELO, a pipelined burst}; failing handshake; immediate TLS; AUTH: %d argument shapes '
         '(PLAIN/LOGIN/CRAM-MD5/unknown x none, initial response, =, *, bad base64, empty, Unicode, invalid UTF-8, bare AUTH) x {clear, STARTTLS, immediate TLS} x '
         '{after EHLO, before EHLO, inside a transaction, after success, after a failed attempt} x handler verdicts; each followed by NOOP and a second AUTH. '
-        'Client: real Client.starttls() against a scripted TLS server that pipelines %d kinds of extra bytes behind its 220. Compared with the model: every reply '
+        'Real Client.auth against the real Server (both ends real, TLS immediate and via STARTTLS): PLAIN/LOGIN/CRAM-MD5 x credential lengths '
+        '{1,10,40,56,57,58,100,300,1000} bytes x {ASCII, multi-byte Unicode} x {authcid, secret} x authzid present/absent; the handler\'s credentials object must equal what '
+        'Client.auth was given and the client\'s wire must be the model encoder\'s one line per SASL response. Client: real Client.starttls() against a scripted TLS server that pipelines %d kinds of extra bytes behind its 220. Compared with the model: every reply '
         'code with the channel it arrived on, 334 payloads, callback trace with the encryption flag and the credentials object, final Server/SmtpSession state, '
         'session end. Primitives: base64.b64decode exhaustive over a 6-letter alphabet + random, AuthSession._parse_arg exhaustive to length 5, pysasl mechanisms on '
         'random and structured responses. non-trivial = bytes were read over TLS or more than two callbacks happened / non-empty input.' % (len(AUTH_SHAPES), len(CLIENT_EXTRAS)))
@@ -1798,6 +1986,12 @@ def replay(ctx, doc):
                 print('   ', c)
             print('extensions:', r['exts'])
             oracle_client(ctx, case, r)
+        elif case.get('kind') == 'pair':
+            r = run_pair_case(case)
+            print('client calls:', r['calls'], 'error:', r['err'])
+            print('client wire:', [l[:100] for l in r['wire'].split(b'\r\n')])
+            print('callbacks:', [(e[0], e[1], tuple(x[:50] if isinstance(x, bytes) else x for x in e[2]) if e[0] == 1 else e[2]) for e in r['events']])
+            oracle_pair(ctx, case, r, ctx.model.batch('c08_b64enc', r['responses']))
         elif case.get('kind') == 'mech':
             print(case)
         else:
